@@ -11,9 +11,16 @@
 (* The inner call is the one of QuorumRead.tla, here with set-indexed      *)
 (* variables and restricted to what the outer layer can influence: default *)
 (* (non-zone-aware) tracker, all requests started, no hedging, no terminal *)
-(* predicate (those dimensions are decided on QuorumRead.tla).  Callbacks  *)
-(* never call their CancelCauseFunc during the run, so the in-flight       *)
-(* tracker never cancels workersCtx (not modelled).                        *)
+(* predicate (those dimensions are decided on QuorumRead.tla).             *)
+(*                                                                         *)
+(* In-flight tracker / "all requests completed" rule: every invocation of  *)
+(* f is tracked (addInstance) until the callback calls the CancelCauseFunc *)
+(* it was given (CbDone: cancels its own context, removeInstance, then     *)
+(* cancelWorkersCtxIfSafe).  workersCtx is released ("completed") exactly  *)
+(* when the call has returned successfully (allInstancesAdded) and no      *)
+(* tracked invocation is left - never while a returned call still uses its *)
+(* context.  With a single set the call is delegated to the inner call and *)
+(* there is no tracker.  Switched on by the constant WithDone.              *)
 (*                                                                         *)
 (* The specification states what the PROPERTY demands: a result that a     *)
 (* successful set handed to its worker and that is not returned because    *)
@@ -22,7 +29,10 @@
 (***************************************************************************)
 EXTENDS Integers, FiniteSets, Sequences, TLC
 
-CONSTANTS Shapes      \* set of sequences of set sizes, e.g. {<<1,1>>, <<2,1>>, <<1,1,1>>}
+CONSTANTS Shapes,     \* set of sequences of set sizes, e.g. {<<1,1>>, <<2,1>>, <<1,1,1>>}
+          WithDone,   \* BOOLEAN: callbacks may call their CancelCauseFunc (in-flight tracker modelled)
+          TrackerBug  \* negative control: "none" as coded | "ignoreExpect": allInstancesCompleted ignores
+                      \* expectMoreInstances | "firstDone": the first completed callback releases workersCtx
 
 VARIABLES cfg,        \* [size |-> <<n_1..n_K>>, tol |-> <<t_1..t_K>>]
           st, outcome, ctx, calls, cleaned,     \* per instance (global numbering, set by set)
@@ -31,10 +41,12 @@ VARIABLES cfg,        \* [size |-> <<n_1..n_K>>, tol |-> <<t_1..t_K>>]
           firstErr,   \* returnErr: [cls, inst] or NoErr
           collected,  \* returnResults (as a set of instances)
           outerPc, ret,
+          cbDone,     \* instances whose callback has called its CancelCauseFunc
+          expectMore, \* inflightInstanceTracker.expectMoreInstances
           errRecv     \* history: instances whose error an inner main loop received
 
 vars == <<cfg, st, outcome, ctx, calls, cleaned, chan, numSucc, numErr, rmap, innerPc, iret, workerDone,
-          wctx, firstErr, collected, outerPc, ret, errRecv>>
+          wctx, firstErr, collected, outerPc, ret, cbDone, expectMore, errRecv>>
 
 K    == Len(cfg.size)
 Sets == 1..K
@@ -74,6 +86,7 @@ InitCfg(c) ==
      /\ workerDone = [s \in 1..kk |-> FALSE]
      /\ wctx = "live" /\ firstErr = NoErr /\ collected = {}
      /\ outerPc = "wait" /\ ret = NoRet /\ errRecv = {}
+     /\ cbDone = {} /\ expectMore = TRUE
 Init == \E c \in Cfgs : InitCfg(c)
 
 CancelIn(c, S, cause) == [i \in Inst |-> IF i \in S /\ c[i] = "live" THEN cause ELSE c[i]]
@@ -85,7 +98,7 @@ Begin(i) ==
   /\ st' = [st EXCEPT ![i] = "running"]
   /\ calls' = [calls EXCEPT ![i] = @ + 1]
   /\ UNCHANGED <<cfg, outcome, ctx, cleaned, chan, numSucc, numErr, rmap, innerPc, iret, workerDone,
-                 wctx, firstErr, collected, outerPc, ret, errRecv>>
+                 wctx, firstErr, collected, outerPc, ret, cbDone, expectMore, errRecv>>
 
 Abort(i) ==
   /\ st[i] = "released" /\ ctx[i] # "live"
@@ -93,7 +106,7 @@ Abort(i) ==
   /\ outcome' = [outcome EXCEPT ![i] = "abort"]
   /\ chan' = [chan EXCEPT ![SetOf(i)] = Append(@, i)]
   /\ UNCHANGED <<cfg, ctx, calls, cleaned, numSucc, numErr, rmap, innerPc, iret, workerDone,
-                 wctx, firstErr, collected, outerPc, ret, errRecv>>
+                 wctx, firstErr, collected, outerPc, ret, cbDone, expectMore, errRecv>>
 
 Finish(i, o) ==
   /\ st[i] = "running" /\ o \in {"ok", "err"}
@@ -101,19 +114,19 @@ Finish(i, o) ==
   /\ outcome' = [outcome EXCEPT ![i] = o]
   /\ chan' = [chan EXCEPT ![SetOf(i)] = Append(@, i)]
   /\ UNCHANGED <<cfg, ctx, calls, cleaned, numSucc, numErr, rmap, innerPc, iret, workerDone,
-                 wctx, firstErr, collected, outerPc, ret, errRecv>>
+                 wctx, firstErr, collected, outerPc, ret, cbDone, expectMore, errRecv>>
 
 ParentCancel ==
   /\ wctx = "live" /\ outerPc = "wait"
   /\ wctx' = "parent"
   /\ ctx' = CancelIn(ctx, Inst, "parent")
   /\ UNCHANGED <<cfg, st, outcome, calls, cleaned, chan, numSucc, numErr, rmap, innerPc, iret, workerDone,
-                 firstErr, collected, outerPc, ret, errRecv>>
+                 firstErr, collected, outerPc, ret, cbDone, expectMore, errRecv>>
 
 \* inner main loop of set s: case result := <-resultsChan
 InnerRecv(s) ==
   /\ innerPc[s] = "loop" /\ ~Succeeded(s) /\ chan[s] # <<>>
-  /\ UNCHANGED <<cfg, outcome, calls, workerDone, wctx, firstErr, collected, outerPc, ret>>
+  /\ UNCHANGED <<cfg, outcome, calls, workerDone, wctx, firstErr, collected, outerPc, ret, cbDone, expectMore>>
   /\ LET i == Head(chan[s])
      IN /\ chan' = [chan EXCEPT ![s] = Tail(@)]
         /\ st' = [st EXCEPT ![i] = "recv"]
@@ -137,10 +150,11 @@ InnerCtxDone(s) ==
   /\ innerPc[s] = "loop" /\ ~Succeeded(s) /\ wctx # "live"
   /\ innerPc' = [innerPc EXCEPT ![s] = "returned"]
   /\ iret' = [iret EXCEPT ![s] = [kind |-> "err", set |-> {}, inst |-> 0,
-                                  cls |-> IF wctx = "parent" THEN "cancelled" ELSE "otherSet"]]
+                                  cls |-> IF wctx = "parent" THEN "cancelled"
+                                          ELSE IF wctx = "completed" THEN "completed" ELSE "otherSet"]]
   /\ cleaned' = CleanAll(cleaned, rmap[s])
   /\ UNCHANGED <<cfg, st, outcome, ctx, calls, chan, numSucc, numErr, rmap, workerDone,
-                 wctx, firstErr, collected, outerPc, ret, errRecv>>
+                 wctx, firstErr, collected, outerPc, ret, cbDone, expectMore, errRecv>>
 
 InnerReturnOK(s) ==
   /\ innerPc[s] = "loop" /\ Succeeded(s)
@@ -148,7 +162,7 @@ InnerReturnOK(s) ==
   /\ iret' = [iret EXCEPT ![s] = [kind |-> "ok", set |-> rmap[s], cls |-> "-", inst |-> 0]]
   /\ ctx' = CancelIn(ctx, InstOf(s) \ rmap[s], "notRequired")
   /\ UNCHANGED <<cfg, st, outcome, calls, cleaned, chan, numSucc, numErr, rmap, workerDone,
-                 wctx, firstErr, collected, outerPc, ret, errRecv>>
+                 wctx, firstErr, collected, outerPc, ret, cbDone, expectMore, errRecv>>
 
 Drain(s) ==
   /\ innerPc[s] = "returned" /\ chan[s] # <<>>
@@ -157,7 +171,7 @@ Drain(s) ==
         /\ st' = [st EXCEPT ![i] = "recv"]
         /\ cleaned' = IF outcome[i] = "ok" THEN [cleaned EXCEPT ![i] = @ + 1] ELSE cleaned
   /\ UNCHANGED <<cfg, outcome, ctx, calls, numSucc, numErr, rmap, innerPc, iret, workerDone,
-                 wctx, firstErr, collected, outerPc, ret, errRecv>>
+                 wctx, firstErr, collected, outerPc, ret, cbDone, expectMore, errRecv>>
 
 \* worker goroutine of set s after its inner call returned
 Worker(s) ==
@@ -174,7 +188,14 @@ Worker(s) ==
      ELSE /\ collected' = collected \cup iret[s].set
           /\ UNCHANGED <<firstErr, wctx, ctx>>
   /\ UNCHANGED <<cfg, st, outcome, calls, cleaned, chan, numSucc, numErr, rmap, innerPc, iret,
-                 outerPc, ret, errRecv>>
+                 outerPc, ret, cbDone, expectMore, errRecv>>
+
+\* tracked invocations of f that have not completed (inflightInstanceTracker.inflight; addInstance
+\* happens when f is invoked, removeInstance when the callback calls its CancelCauseFunc)
+Inflight == {i \in Inst : calls[i] > 0 /\ i \notin cbDone}
+\* inflightTracker.allInstancesCompleted() if the tracked set were X and expectMoreInstances were e
+AllCompleted(X, e) == CASE TrackerBug = "ignoreExpect" -> X = {}
+                        [] OTHER -> ~e /\ X = {}
 
 \* workersGroup.Wait() returned
 OuterReturn ==
@@ -183,12 +204,33 @@ OuterReturn ==
   /\ IF firstErr # NoErr
      THEN /\ ret' = [kind |-> "err", set |-> {}, cls |-> firstErr.cls, inst |-> firstErr.inst]
           /\ cleaned' = CleanAll(cleaned, collected)      \* demanded by the property (see header)
+          /\ UNCHANGED <<expectMore, wctx, ctx>>
      ELSE /\ ret' = [kind |-> "ok", set |-> collected, cls |-> "-", inst |-> 0]
           /\ UNCHANGED cleaned
-  /\ UNCHANGED <<cfg, st, outcome, ctx, calls, chan, numSucc, numErr, rmap, innerPc, iret, workerDone,
-                 wctx, firstErr, collected, errRecv>>
+          \* inflightTracker.allInstancesAdded(); cancelWorkersCtxIfSafe()
+          /\ expectMore' = FALSE
+          /\ IF K > 1 /\ AllCompleted(Inflight, FALSE) /\ wctx = "live"
+             THEN wctx' = "completed" /\ ctx' = CancelIn(ctx, Inst, "completed")
+             ELSE UNCHANGED <<wctx, ctx>>
+  /\ UNCHANGED <<cfg, st, outcome, calls, chan, numSucc, numErr, rmap, innerPc, iret, workerDone,
+                 firstErr, collected, cbDone, errRecv>>
 
-EnvNext == (\E i \in Inst : \E o \in {"ok", "err"} : Finish(i, o)) \/ ParentCancel
+\* environment: the callback invoked for i calls the CancelCauseFunc it was given (while it runs or any
+\* time later): cancelCtx(cause); inflightTracker.removeInstance; cancelWorkersCtxIfSafe().
+\* With one set the function is the inner call's own cancel function.
+CbDone(i) ==
+  /\ WithDone /\ calls[i] > 0 /\ i \notin cbDone
+  /\ cbDone' = cbDone \cup {i}
+  /\ LET c1 == CancelIn(ctx, {i}, "cb")
+         release == \/ AllCompleted(Inflight \ {i}, expectMore)
+                    \/ TrackerBug = "firstDone"
+     IN IF K > 1 /\ release /\ wctx = "live"
+        THEN wctx' = "completed" /\ ctx' = CancelIn(c1, Inst, "completed")
+        ELSE ctx' = c1 /\ UNCHANGED wctx
+  /\ UNCHANGED <<cfg, st, outcome, calls, cleaned, chan, numSucc, numErr, rmap, innerPc, iret, workerDone,
+                 firstErr, collected, outerPc, ret, expectMore, errRecv>>
+
+EnvNext == (\E i \in Inst : (\E o \in {"ok", "err"} : Finish(i, o)) \/ CbDone(i)) \/ ParentCancel
 IntNext == \/ \E i \in Inst : Begin(i) \/ Abort(i)
            \/ \E s \in Sets : InnerRecv(s) \/ InnerCtxDone(s) \/ InnerReturnOK(s) \/ Drain(s) \/ Worker(s)
            \/ OuterReturn
@@ -211,6 +253,9 @@ Spec == Init /\ [][Next]_vars /\ Fairness
 
 -----------------------------------------------------------------------------
 TypeOK == /\ \A i \in Inst : calls[i] \in 0..1 /\ cleaned[i] \in 0..2
+          /\ cbDone \subseteq {i \in Inst : calls[i] > 0}
+          /\ wctx \in {"live", "parent", "otherSet", "completed"}
+          /\ expectMore = ~(outerPc = "returned" /\ ret.kind = "ok")
           /\ (outerPc = "wait") = (ret.kind = "none")
 
 ExceededH(s) == Cardinality(errRecv \cap InstOf(s)) > cfg.tol[s]
@@ -220,12 +265,22 @@ QuorumBacked   == ret.kind = "ok" => \A s \in Sets : Cardinality(ret.set \cap In
 ErrWhenExceeded ==
   /\ ret.kind = "ok" => \A s \in Sets : ~ExceededH(s)
   /\ ret.kind = "err" => \/ ret.cls = "inst" /\ ret.inst \in errRecv /\ ExceededH(SetOf(ret.inst))
-                         \/ ret.cls = "cancelled" /\ wctx = "parent"
+                         \/ ret.cls = "cancelled" /\ wctx = "parent"      \* never "completed" / "otherSet"
 AtMostOneCall == \A i \in Inst : calls[i] <= 1
 CleanupSafe == \A i \in Inst : cleaned[i] <= 1 /\ (cleaned[i] = 1 => outcome[i] = "ok" /\ i \notin ret.set)
 CleanupExactlyOnce ==
   Terminated => \A i \in Inst : cleaned[i] = (IF outcome[i] = "ok" /\ i \notin ret.set THEN 1 ELSE 0)
 UnusedCancelled == outerPc = "returned" => \A i \in Inst \ ret.set : ctx[i] # "live"
-ReturnedNotCancelled == (ret.kind = "ok" /\ wctx = "live") => \A i \in ret.set : ctx[i] = "live"
+\* the context of a returned call stays usable until the caller gives up or the callback itself releases it
+ReturnedNotCancelled == (ret.kind = "ok" /\ wctx # "parent") => \A i \in ret.set \ cbDone : ctx[i] = "live"
+\* the shared workers context is released only after a successful return and only when every returned call
+\* has released its own context (so it outlives every use of a returned result) ...
+CompletedJustified == wctx = "completed" => /\ K > 1 /\ ret.kind = "ok" /\ ~expectMore
+                                            /\ ret.set \subseteq cbDone
+\* ... and it IS released as soon as nothing tracked is left (no leak of the context tree)
+CompletedWhenAllDone == (K > 1 /\ ret.kind = "ok" /\ wctx # "parent" /\ Inflight = {}) => wctx = "completed"
+\* reachability witnesses (TLC must refute them)
+NeverCompleted == wctx # "completed"
+NeverCompletedByCallback == ~(wctx = "completed" /\ \E i \in cbDone : ctx[i] = "cb" /\ i \in ret.set)
 Termination == <>Terminated
 =============================================================================
